@@ -358,6 +358,21 @@ def run_impl(case):
     calls = []
     try:
         kw = {} if case.get("reraise") is None else {"reraise_visit": case["reraise"]}
+        if case.get("hooks"):
+            # logging wrappers around the default enter/exit (public API): every call, in order
+            from boltons.iterutils import default_enter, default_exit
+            enters, exits = [], []
+
+            def log_enter(path, key, value):
+                enters.append([[key_tok(x) for x in path], key_tok(key), ref_of(value), shallow(value)])
+                return default_enter(path, key, value)
+
+            def log_exit(path, key, old_parent, new_parent, new_items):
+                exits.append([[key_tok(x) for x in path], key_tok(key), in_ids[id(old_parent)],
+                              [[key_tok(k2), shallow(v2)] for k2, v2 in new_items]])
+                return default_exit(path, key, old_parent, new_parent, new_items)
+            kw.update(enter=log_enter, exit=log_exit)
+            obs["hooks"] = [enters, exits]
         if case["visit"] is None:
             out = remap(root, **kw)
         else:
@@ -494,14 +509,22 @@ def to_coq(case, obs):
     else:
         ents = "(Raise %s)" % EXN[obs["research"][1]]
     dc = "(Some %s)" % cobj(obs["deepcopy"]) if "deepcopy" in obs else "None"
+    if "hooks" in obs:
+        hooks = "(Some ([%s], [%s]))" % (
+            "; ".join("(%s, %s, %s, %s)" % (cpath(p), ckey(k), coref(r), csview(s)) for p, k, r, s in obs["hooks"][0]),
+            "; ".join("(%s, %s, %d, [%s])" % (cpath(p), ckey(k), i, "; ".join("(%s, %s)" % (ckey(k2), csview(s2))
+                                                                              for k2, s2 in l))
+                      for p, k, i, l in obs["hooks"][1]))
+    else:
+        hooks = "None"
     probes = "[" + "; ".join(
         "(%s, %s, %s)" % (cpath(p), "Ok %s" % coref(g[1]) if g[0] == "ok" else "Raise KeyError",
                           "true" if d else "false") for p, g, d in obs.get("probes", [])) + "]"
     qr = "None" if case.get("qraise") is None else "(Some %s)" % cpred(case["qraise"])
-    return "mkCase %s %s %s %s %s %s %s %s %s %s %s %s %s" % (
+    return "mkCase %s %s %s %s %s %s %s %s %s %s %s %s %s %s" % (
         cobj(obs["in"]), visit, "false" if case.get("reraise") is False else "true", out,
         calls, cobj(obs["in_after"]), cpred(case["query"]), qr, "true" if case.get("qreraise") else "false", ents,
-        cobj(obs["in_final"]), probes, dc)
+        cobj(obs["in_final"]), hooks, probes, dc)
 
 
 # --------------------------------------------------------------------------
@@ -797,7 +820,7 @@ def generate(rng, tier, n):
         yield {"nodes": nodes, "root": root, "visit": prog,
                "reraise": rng.choice([None, True, False, False, False] if raises else [None, None, True, False]),
                "query": ["true"] if rng.random() < 0.35 else gen_pred(rng), "dc": rng.random() < 0.3,
-               "dotted": dotted, "style": rng.randrange(36),
+               "dotted": dotted, "hooks": rng.random() < 0.4, "style": rng.randrange(36),
                "qraise": gen_pred(rng, 1) if rng.random() < 0.2 else None,
                "qreraise": rng.choice([None, None, False, True]),
                "probes": gen_probes(rng, nodes, root, rng.randint(0, 4), dotted)}
